@@ -7,7 +7,7 @@
    is answered by Tor as soon as it is written (the scripted Tor does so after the stimulus returns).
 
    What is mirrored, line by line:
-   * hs_desc(): UPLOAD adds to `attempted` only if the address matches the service's hostname (unknown
+   * hs_desc(): directories are keyed by fingerprint (see run_named at the end); UPLOAD adds to `attempted` only if the address matches the service's hostname (unknown
      = None before the reply unless the HiddenServiceDir already has a hostname file); UPLOADED is NOT
      checked against the address, only `dir in attempted`; FAILED is checked against the address;
      completion tests: not await-all: first accepted UPLOADED; await-all: (failed|confirmed) >=
@@ -203,3 +203,8 @@ Definition run (c : cfg) (ops : list op) : list rec := start_rec c :: run_from c
 
 Fixpoint final (c : cfg) (s : st) (ops : list op) : st :=
   match ops with [] => s | o :: ops' => final c (fst (step c s o)) ops' end.
+
+(* hs_desc() first reduces the HsDir field to the fingerprint (`hsdir = args[3].split('~')[0]`, fix 1b606af) and
+   keys all three sets by it: on a history with directory NAMES (Spec.C15: name 2i = "$FP", 2i+1 = "$FP~nick") the
+   code behaves as `run` on the history of directories *)
+Definition run_named (c : cfg) (ops : list op) : list rec := run c (canon ops).
